@@ -1,6 +1,7 @@
 package c12
 
 import (
+	"bufio"
 	"bytes"
 	"encoding/hex"
 	"encoding/json"
@@ -97,6 +98,10 @@ type Kill struct {
 	Gen   int    `json:"gen"`
 	Point string `json:"point"`
 	Occ   int    `json:"occ"`
+	// Point "@time": the parent SIGKILLs the child from outside, DelayUs microseconds after
+	// it has read the AfterLine-th output line of the child (Occ unused).
+	AfterLine int `json:"afterLine,omitempty"`
+	DelayUs   int `json:"delayUs,omitempty"`
 }
 
 func value(kind, a string, n int) interface{} {
@@ -276,19 +281,59 @@ func runChild(dir string, w Workload, gen int, kill *Kill) (*childResult, error)
 	}
 	cmd.Env = append(os.Environ(), "VERIF_C12_CHILD=1", "VERIF_C12_WORKLOAD="+string(wb), "VERIF_C12_GEN="+strconv.Itoa(gen), "VERIF_C12_KILL="+string(kb), "VERIF_C12_DIR="+dir, "VERIF_EVID_DIR=")
 	var buf bytes.Buffer
-	cmd.Stdout = &buf
-	cmd.Stderr = &buf
-	done := make(chan error, 1)
-	if err := cmd.Start(); err != nil {
+	var bufMu sync.Mutex
+	pr, pw, err := os.Pipe()
+	if err != nil {
 		return nil, err
 	}
+	cmd.Stdout = pw
+	cmd.Stderr = pw
+	done := make(chan error, 1)
+	if err := cmd.Start(); err != nil {
+		pw.Close()
+		pr.Close()
+		return nil, err
+	}
+	pw.Close()
+	timed := kill != nil && kill.Point == "@time"
+	readDone := make(chan struct{})
+	killedByParent := false
+	go func() {
+		defer close(readDone)
+		br := bufio.NewReader(pr)
+		lines := 0
+		for {
+			line, err := br.ReadString('\n')
+			bufMu.Lock()
+			buf.WriteString(line)
+			bufMu.Unlock()
+			if line != "" {
+				lines++
+				if timed && lines == kill.AfterLine {
+					d := time.Duration(kill.DelayUs) * time.Microsecond
+					go func() {
+						time.Sleep(d)
+						_ = cmd.Process.Kill()
+					}()
+				}
+			}
+			if err != nil {
+				return
+			}
+		}
+	}()
 	go func() { done <- cmd.Wait() }()
 	select {
-	case <-done:
+	case werr := <-done:
+		if werr != nil && strings.Contains(werr.Error(), "killed") {
+			killedByParent = true
+		}
 	case <-time.After(60 * time.Second):
 		_ = cmd.Process.Kill()
 		return nil, fmt.Errorf("VERIF-INCONCLUSIVE: child did not finish within 60s")
 	}
+	<-readDone
+	pr.Close()
 	r := &childResult{begun: -1, outcome: map[int]string{}, counts: map[string]int{}, raw: buf.String()}
 	for _, line := range strings.Split(buf.String(), "\n") {
 		f := strings.Fields(line)
@@ -318,6 +363,14 @@ func runChild(dir string, w Workload, gen int, kill *Kill) (*childResult, error)
 		case "CHILDERR":
 			return r, fmt.Errorf("child error: %s", line)
 		}
+	}
+	if timed {
+		// killed from outside somewhere, or finished before the signal arrived
+		r.killed = killedByParent && !r.done
+		if !r.killed && !r.done {
+			return r, fmt.Errorf("child neither completed nor was killed: %s", tail(r.raw))
+		}
+		return r, nil
 	}
 	if kill != nil && kill.Point != "" && !r.killed {
 		return r, fmt.Errorf("kill point %v was not reached: %s", *kill, tail(r.raw))
@@ -785,28 +838,38 @@ func TestCrashEnumeration(t *testing.T) {
 // dropKnown adapts a workload to exclude listed known findings by construction.
 func dropKnown(w *Workload) bool { return false }
 
-// TestRandomTimeKills kills children from outside at random times (thorough).
+// TestRandomTimeKills: the parent SIGKILLs a child generation from outside, a drawn
+// number of microseconds after a drawn output line, i.e. anywhere - not only at an
+// instrumented point. The same admissible-state fold decides (an operation that was
+// begun but not acknowledged is in flight).
 func TestRandomTimeKills(t *testing.T) {
-	n := evid.Pick(0, 300)
-	if n == 0 {
-		ev.Case(false, 0, "random-kill-skipped")
-		return
-	}
+	n := evid.Pick(48, 600)
 	seed, _ := strconv.Atoi(os.Getenv("VERIF_RSEED"))
-	for i := 0; i < n; i++ {
-		w := genWorkload().Example(seed + 100000 + i*7919)
-		// kill via a pseudo point that fires after a delay derived from the seed: emulate with op.before/after occurrence choice across all generations
-		g := (seed + i) % len(w.Gens)
-		occ := 1 + (seed/7+i*13)%(2*len(w.Gens[g]))
-		p := []string{"op.before", "op.after", "store.committed", "index.begin", "index.committed"}[(seed/3+i)%5]
-		k := Kill{Gen: g, Point: p, Occ: occ}
+	nsh, sh := 1, 0
+	if v, err := strconv.Atoi(os.Getenv("VERIF_SHARDS")); err == nil && v > 0 {
+		nsh = v
+		sh, _ = strconv.Atoi(os.Getenv("VERIF_SHARD"))
+	}
+	landed := 0
+	for i := sh; i < n; i += nsh {
+		w := genWorkload().Example(seed%1000003 + 100000 + i*7919)
+		g := (seed/11 + i) % len(w.Gens)
+		x := uint64(seed)*2654435761 + uint64(i)*40503
+		k := Kill{Gen: g, Point: "@time", AfterLine: 1 + int(x%uint64(2*len(w.Gens[g])+3)), DelayUs: []int{0, 0, 20, 80, 200, 500, 1500, 4000}[(x/97)%8]}
 		msg, nt, _ := runScenario(w, map[int]Kill{g: k})
-		ev.Case(nt, evid.Hash(w.String(), g, p, occ), "random-kill")
+		ev.Case(nt, evid.Hash(w.String(), g, k.AfterLine, k.DelayUs), "random-time-kill")
+		if nt {
+			landed++
+		}
 		if msg != "" && !strings.HasPrefix(msg, "VERIF-INCONCLUSIVE") {
 			evid.Violation(t, prop, "crash", fmt.Sprintf("kill %+v: %s", k, msg), replayCase{W: w, K: map[int]Kill{g: k}})
 			return
 		}
+		if strings.HasPrefix(msg, "VERIF-INCONCLUSIVE") {
+			t.Fatalf("%s", msg)
+		}
 	}
+	ev.Add("random-time-kills-landed-in-flight", int64(landed))
 }
 
 var _ = filepath.Join
